@@ -68,7 +68,7 @@ LEVEL["C19"] = {
 
 LEVEL["C10"] = {
     "text": "Lean theorems: escaping is a one-pass map; the section parser is complete for trees of any depth; rendering equals the reference semantics; every tag spelling is lexed to its flat token with blanks anywhere; unopened / unclosed / mismatched sections, mismatched brace counts and unclosed tags are rejected; variable lookup is case-insensitive and independent of the map's iteration order. Tied to the Go engine by generated template trees x variable maps against an independent reference renderer, exhaustive lexeme strings for accept/reject, and comparison of rendering, parse tree and variable list with the compiled model.",
-    "design_ref": "DESIGN.md 4/C10", "note": _NOTE + " The text-to-token step is now a theorem for the tokenizer (tokenize_mustache_eq); the composition text -> tree for printed templates is being added (C10Text).", "technique": "Lean 4 proof (refinement of parser+renderer to a reference semantics on template trees, state-machine lemmas per tag spelling) + correspondence check",
+    "design_ref": "DESIGN.md 4/C10", "note": _NOTE + " Text level included: parse after print is the identity and rendering the printed text of a tree equals the reference semantics (Props/C10Text.lean, on top of tokenize_mustache_eq).", "technique": "Lean 4 proof (refinement of parser+renderer to a reference semantics on template trees, state-machine lemmas per tag spelling) + correspondence check",
 }
 
 LEVEL["C08"] = {
